@@ -39,7 +39,7 @@ type tsVal struct {
 	nanos int32
 }
 
-var vTimestamps = []tsVal{{1700000000, 0}, {1700000000, 123000000}, {1700000000, 123456789}, {-1, 999999999}, {-62135596800, 0}, {253402300799, 999999999}, {0, 1}, {951782400, 0}, {0, 0}}
+var vTimestamps = []tsVal{{1700000000, 0}, {1700000000, 123000000}, {1700000000, 123456789}, {1700000000, 123456000}, {1700000000, 1000}, {1700000000, 120000000}, {1700000000, 500000}, {-1, 999999999}, {-62135596800, 0}, {253402300799, 999999999}, {0, 1}, {951782400, 0}, {0, 0}}
 
 type dateVal struct{ y, m, d int32 }
 
